@@ -3,7 +3,7 @@
    Life/Witness.v.  "_refuted": the faithful model of the code as it stands violates the statement;
    the witness is replayed against the real service by the harness (corpus/C10). *)
 From Verif Require Import Life.Classify Life.ClassifyProofs Life.Backoff Life.BackoffProofs
-                          Life.RunMap Life.Witness.
+                          Life.RunMap Life.Witness Life.Accept Life.AcceptProofs.
 Local Open Scope Z_scope.
 
 (* ---------------- fatal_degrades_no_restart ---------------- *)
@@ -159,6 +159,29 @@ Theorem C10_first_reason_decides_v2 : forall r rs f rec,
   decide v2_arms (tomb_err (kills (r :: rs))) f rec = decide v2_arms r f rec.
 Proof. exact (first_reason_decides_generic v2_arms). Qed.
 Print Assumptions C10_first_reason_decides_v2.
+
+(* v1 only: the tomb latch is read too early. The node goroutine's deferred nodesWg.Done() runs before
+   tomb.v2 records the node's error, so the cleanup goroutine can classify RNil for a run that died of a
+   failure: UserStopped, the error dropped, no recovery, no Degraded (v2 Kills before Done) *)
+Theorem C10_first_reason_decides_v1_refuted :
+  match trace (cfg_v1 false) init w_late_kill_v1 with
+  | Some (ls, s) =>
+      status_eqb (s_status s) UserStopped
+      && negb (has_label (fun l => match l with LCall KStart 0 => false | LCall _ _ => true | _ => false end) ls)
+      && has_label (fun l => match l with LInj CaTransient => true | _ => false end) ls
+      && negb (has_label (fun l => match l with LStatus Recovering | LStatus Degraded => true | _ => false end) ls)
+  | None => false
+  end = true.
+Proof. exact failure_reported_as_user_stopped_v1. Qed.
+Print Assumptions C10_first_reason_decides_v1_refuted.
+
+(* ---------------- tie to the observed behaviour ---------------- *)
+(* the trace acceptor is sound: every event log of the real service that the check accepts is the observable
+   trace of an interleaving of the model, whose cleanup steps are [decide] over the tomb's first reason *)
+Theorem C10_accepted_log_is_a_model_interleaving : forall c log,
+  Accept.accepts c log = true -> exists s', AcceptProofs.explains c init log s'.
+Proof. exact AcceptProofs.accepts_sound. Qed.
+Print Assumptions C10_accepted_log_is_a_model_interleaving.
 
 (* ---------------- non-vacuity ---------------- *)
 Example C10_nonvacuous_backoff :
